@@ -198,18 +198,45 @@ prop("C05", level="other",
                 "outcome is compared with the documented layer semantics for all 12 shapes and the two 'any layer' aliases.",
      level_note=_BND_NOTE, technique=_BND_TECH, explanation="layer rule verdicts", roots=["LayerRuleViolationDetector._get_realised_dependencies", "LayerRuleViolationDetector._get_any_missing_dependencies_in_user_specified_order", "LayerRule.based_on"], bounded=[_b("layers", "bounded_layer_verdicts")], trusted_base=_TB)
 prop("C06", level="other",
-     level_text="Mixed. PROVED (string view): alias resolution and merge -- PumlParser._unify / _get_modules_by_alias / _unify_module / _get_unified_modules: the dependencies of a component "
-                "are the union over all lines naming it as dependor by alias or by name, every identifier resolved; components = declared + dependors + dependees. BOUNDED: the regex "
-                "tokenisation of the file text (re.finditer over the whole file is outside SMT regex theories): diagrams generated from a random component relation by choosing declaration, reference and arrow forms and line order; the real parser's components and "
-                "dependencies are compared with the relation; files without tags must be rejected.",
-     level_note=_BND_NOTE + "Whole-file re.finditer tokenisation is outside SMT regex theories (DESIGN section 7).", technique=_BND_TECH, explanation="puml parsing", roots=["PumlParser._unify", "PumlParser._get_unified_modules", "PumlParser._get_modules_by_alias"],
+     level_text="Mixed. PROVED (string view): (1) the structure of PumlParser.parse around the regex tokenisation: the file text is read and stripped, a text without '@startuml <non-empty> @enduml' "
+                "(re.search with the tag regex the source builds, DOTALL) raises PumlParsingError and is never parsed to an empty diagram, otherwise exactly group 1 -- the text between the tags -- is "
+                "tokenised, and the result is the alias resolution and merge of the tokens found there; _remove_content_outside_start_and_end_tags, _named_group, _component_optional_brackets (the regex "
+                "text they build). (2) alias resolution and merge -- PumlParser._unify / _get_modules_by_alias / _unify_module / _get_unified_modules: every alias stands for the name of a declaration "
+                "that carries it, the dependencies of a component are the union over all lines naming it as dependor by alias or by name, every identifier resolved; components = declared + dependors + "
+                "dependees. BOUNDED: the two re.finditer loops (_retrieve_modules_declared_outside_dependencies, _retrieve_dependencies_and_inline_modules: which (name, alias) pairs and which "
+                "dependor -> dependee pairs the regexes find in a text) enter the proof as two uninterpreted functions of the diagram text ('bounded' contracts); what they are is checked by the stand-in: "
+                "diagrams generated from a random component relation by choosing declaration, reference and arrow forms and line order; the real parser's components and dependencies are compared "
+                "with the relation; files without tags must be rejected. (3) REGEX AS DATA, per-line language lemmas: on every run the two line regexes are obtained from the current source (the real functions run once on the empty "
+                "text with re.compile intercepted), parsed with CPython's re._parser and translated to SMT-LIB RegLan; proved for ALL component names over letters / digits / '_' / '.' (dotted names included), all arrow texts and "
+                "aliases over \\w+: each of the 10 documented arrow forms ([a] --> [b], [a] -> [b], a --> b, [a] -text-> [b], a -> [b] and the five mirrored <- forms) is matched as a whole line by the dependency regex, each of the 6 "
+                "declaration forms (component a, [a], component [a], each with 'as alias') by the declaration regex. Direction (10 lemmas): a right-arrow line is matched by the first alternative (dependor left) and NOT by the second (over-approximated language), a left-arrow line conversely, so the groups of the other alternative are None. NOT proved: which text the capture groups bind (the lemmas were stated -- every decomposition of the whole "
+                "line binds dependor / dependee to the names -- but the word equations time out on both solvers; left out), and the choice among several matches in a multi-line text.",
+     level_note=_BND_NOTE + "Whole-file re.finditer tokenisation is outside SMT regex theories (DESIGN section 7). Assumed: open/read, str.strip (an uninterpreted function), re.compile / re.search / "
+                "re.finditer / Match.group as uninterpreted functions of pattern text, flags and text. With two declarations of ONE alias for different components the alias map (hence the parse result) "
+                "depends on set iteration order, i.e. on the hash seed; the contracts only say that the alias stands for one of the two.",
+     technique=_BND_TECH, explanation="puml parsing",
+     roots=["puml_dependency_regex_accepts_bracketed_long_right", "puml_declaration_regex_accepts_brackets", "PumlParser.parse", "PumlParser._remove_content_outside_start_and_end_tags", "PumlParser._named_group", "PumlParser._component_optional_brackets",
+            "PumlParser._unify", "PumlParser._get_unified_modules", "PumlParser._get_modules_by_alias"],
      bounded=[_b("diagrams", "bounded_puml")], trusted_base=_TB)
 prop("C07", level="other",
-     level_text="Mixed. PROVED: MultipleRuleApplier.assert_applies evaluates ALL rules, fails iff some rule is violated, collects exactly the messages of the violated rules and never turns an "
-                "erroring rule into a verdict (loop invariant with exceptional outcomes, any iteration order); ModulePrefixer.prefix / _add_prefix_to_module: with_base_module(p) == writing every "
-                "component as p.name (string view). DependencyToRuleConverter._generate_rule: the rule for a component with arrows has exactly subject a, verb should_only / should by mode, direction import, objects = the drawn targets. BOUNDED: the converter's lists of rules (Rule records inside lists) and the end-to-end conformance claim: the real DiagramRule outcome is compared with the conformance predicate of the property on random component relations and perturbed import graphs, both "
-                "modes; aggregated messages are checked to contain every violated forbidden pair.",
-     level_note=_BND_NOTE, technique=_BND_TECH, explanation="diagram rule conformance", roots=["MultipleRuleApplier.assert_applies", "ModulePrefixer.prefix", "ModulePrefixer._add_prefix_to_module", "DependencyToRuleConverter._generate_rule"], bounded=[_b("diagrams", "bounded_diagram_rule")], trusted_base=_TB)
+     level_text="Mixed, mostly proved. PROVED: (1) DependencyToRuleConverter.convert / _convert_should_rules / _convert_should_not_rules / _generate_rule / __init__: the generated rule list, as the bag of the "
+                "records of its Rule objects, is EXACTLY {R+(a) | a has arrows} + {R-(a) | a a component, K - {a} - T(a) non-empty}: R+(a) has subject a (by name), verb should_only in the default mode / "
+                "should otherwise, direction import, objects = exactly the drawn targets of a; R-(a) is 'should_not import' towards exactly the OTHER components a has no arrow to; every other field of "
+                "the Rule is pinned (no except, no anything, default matcher). Hence the required/allowed pairs are exactly the drawn relation and the forbidden pairs exactly its complement among the "
+                "components minus the diagonal (any number of components, any iteration order). (2) MultipleRuleApplier.assert_applies evaluates ALL rules, fails iff some rule is violated, collects "
+                "exactly the messages of the violated rules and never turns an erroring rule into a verdict. (3) ModulePrefixer.prefix / _add_prefix_to_module and DiagramRule._add_base_module_path: "
+                "with_base_module(p) == writing every component as p.name (string view). (4) DiagramRule: __init__ / from_file / with_base_module / base_module_included_in_module_names change exactly "
+                "their own field; assert_applies raises ImproperlyConfigured iff no file was given, PumlParsingError iff the file has no diagram between the tags, and otherwise has exactly the outcome of "
+                "MultipleRuleApplier over the converted rules of the prefixed parse result of the file (composition; each Rule's own outcome is the abstract RuleApplier outcome ra_errors / ra_violated, "
+                "linked to Rule.assert_applies' contract by name only). BOUNDED: the end-to-end conformance claim on import graphs (what the generated rules mean on an architecture: C01's lemma is not "
+                "instantiated for the generated rules): the real DiagramRule outcome is compared with the conformance predicate of the property on random component relations and perturbed import graphs, "
+                "both modes; aggregated messages are checked to contain every violated forbidden pair.",
+     level_note=_BND_NOTE + "Lists of Rule objects are modelled as bags of record snapshots (sound for temporaries; the engine refuses anything else). PumlParser.parse is used as a pure function of the file.",
+     technique=_BND_TECH, explanation="diagram rule conformance",
+     roots=["DiagramRule.assert_applies", "DiagramRule.__init__", "DiagramRule.from_file", "DiagramRule.with_base_module", "DiagramRule.base_module_included_in_module_names",
+            "DependencyToRuleConverter.convert", "DependencyToRuleConverter._convert_should_not_rules@sets", "MultipleRuleApplier.assert_applies", "ModulePrefixer.prefix",
+            "ModulePrefixer._add_prefix_to_module", "DependencyToRuleConverter._generate_rule"],
+     bounded=[_b("diagrams", "bounded_diagram_rule")], trusted_base=_TB)
 prop("C17", level="other",
      level_text="Mixed. PROVED (string view, all strings, any number of aliases): NetworkxGraph._create_label returns the alias of the LONGEST aliased module that equals the module or is a dotted "
                 "ancestor of it, followed by the rest of the name, and the full name when none applies (label_ok); _create_plot_labels_with_alias labels exactly the graph's nodes, each with "
